@@ -1010,6 +1010,102 @@ def run(index, rep, tier):
                               "every normal path from `%s` to the return passes a comparison with the declared %s" % (norm_stmt(pnode.stmt)[:40], dim),
                               "PhylipReader._read can return after `%s` without comparing the declared `%s` with what was read (the comparison is skipped on some mode/flag combination): in that mode a document whose rows are shorter than declared comes back as a ragged matrix that contradicts its own header" % (norm_stmt(pnode.stmt)[:60], dim))
 
+    # ---- R20.10 regular expressions cannot blow up
+    with rep.section("R20.10"):
+        rep.rule("R20.10", "no regular expression of the readers can backtrack exponentially: no unbounded repetition whose body is itself an unbounded repetition padded only by optional parts ((x+ y?)+ shapes) - a comment or token that fails to match at its end would otherwise hang the reader")
+        import re as _re
+        try:
+            from re import _parser as _sre_parse
+            from re import _constants as _sre_c
+        except ImportError:       # Python < 3.11
+            import sre_parse as _sre_parse
+            import sre_constants as _sre_c
+        UNB = _sre_c.MAXREPEAT
+
+        def fold(e, mod):
+            if isinstance(e, ast.Constant) and isinstance(e.value, str):
+                return e.value
+            if isinstance(e, ast.BinOp) and isinstance(e.op, ast.Add):
+                a, b = fold(e.left, mod), fold(e.right, mod)
+                return None if a is None or b is None else a + b
+            if isinstance(e, ast.Name) and e.id in mod.assigns:
+                return fold(mod.assigns[e.id], mod)
+            return None
+
+        def seq_of(av):
+            return list(av)
+
+        def nullable(item):
+            op, av = item
+            nm = str(op)
+            if nm in ("MAX_REPEAT", "MIN_REPEAT", "POSSESSIVE_REPEAT"):
+                return av[0] == 0 or all(nullable(x) for x in seq_of(av[2]))
+            if nm == "SUBPATTERN":
+                return all(nullable(x) for x in seq_of(av[3]))
+            if nm == "BRANCH":
+                return any(all(nullable(x) for x in seq_of(alt)) for alt in av[1])
+            if nm in ("AT", "ASSERT", "ASSERT_NOT"):
+                return True
+            return False
+
+        def flatten(items):
+            out = []
+            for it in items:
+                if str(it[0]) == "SUBPATTERN" and not nullable(it) and len(seq_of(it[1][3])) >= 1:
+                    out.extend(flatten(seq_of(it[1][3])))
+                else:
+                    out.append(it)
+            return out
+
+        def explosive(items):
+            """first offending (outer, inner) pair, or None"""
+            for op, av in items:
+                nm = str(op)
+                if nm in ("MAX_REPEAT", "MIN_REPEAT"):
+                    body = flatten(seq_of(av[2]))
+                    if av[1] == UNB:
+                        inner = [x for x in body if str(x[0]) in ("MAX_REPEAT", "MIN_REPEAT") and x[1][1] == UNB and not all(nullable(y) for y in seq_of(x[1][2]))]
+                        for cand in inner:
+                            if all(nullable(o) for o in body if o is not cand):
+                                return True
+                    r = explosive(seq_of(av[2]))
+                    if r:
+                        return r
+                elif nm == "SUBPATTERN":
+                    r = explosive(seq_of(av[3]))
+                    if r:
+                        return r
+                elif nm == "BRANCH":
+                    for alt in av[1]:
+                        r = explosive(seq_of(alt))
+                        if r:
+                            return r
+                elif nm in ("ASSERT", "ASSERT_NOT"):
+                    r = explosive(seq_of(av[1]))
+                    if r:
+                        return r
+            return None
+        nre = 0
+        for m in READER_MODULES:
+            mod = index.module(m)
+            sites = []
+            for x in ast.walk(mod.tree):
+                if isinstance(x, ast.Call) and isinstance(x.func, ast.Attribute) and norm(x.func.value) == "re" and x.func.attr in ("compile", "match", "search", "findall", "finditer", "sub", "subn", "split", "fullmatch") and x.args:
+                    sites.append(x)
+            for c in sites:
+                pat = fold(c.args[0], mod)
+                if pat is None:
+                    continue
+                nre += 1
+                try:
+                    tree = _sre_parse.parse(pat)
+                except Exception:
+                    continue
+                bad = explosive(list(tree))
+                rep.check(not bad, "R20.10", m, "regular expression with nested unbounded repetition: %s" % pat[:50], "%s:%d" % (mod.relpath, c.lineno), "pattern `%s` has no nested unbounded repetition" % pat[:40],
+                          "the pattern `%s` in %s repeats, without bound, a group that itself consists of an unbounded repetition plus only optional parts: when the text stops matching near its end (a `{` list in a metadata comment that lost its closing brace) the matcher tries every way of splitting the run between the two loops - exponential time, i.e. the reader hangs on a one-character truncation" % (pat[:80], m))
+        rep.floor("R20.10", "regular expressions in the reader modules", 4, nre)
+
 
 def _branch_calls_raiser(cfg, n):
     for lab, t in n.succ:
